@@ -839,6 +839,7 @@ func (db *DB) Close(ctx context.Context) (err error) {
 		return err
 	}
 	defer db.execSem.Release(1)
+	verifhook.Yield("db:close_exec_acquired")
 
 	// Perform a final db sync, if initialized.
 	if db.db != nil {
@@ -1284,6 +1285,7 @@ func (db *DB) lockExec(ctx context.Context) error {
 	if err := db.execSem.Acquire(ctx, 1); err != nil {
 		return fmt.Errorf("wait for db sync executor: %w", context.Cause(ctx))
 	}
+	verifhook.Yield("db:exec_acquired")
 	return nil
 }
 
